@@ -748,3 +748,32 @@ def _delslice_post(E):
 _ds = typed(pcase(Case("slice_step_one", ensures=_delslice_post), index=TCustom(_slice_type)), index=VSlice)
 REG.get("DictList.__delitem__").cases.append(_ds)
 REG.get("DictList.__delitem__").modifies = lambda E: dl_locs(E) + [havoc_index_attr(E)]
+
+
+# ---------------------------------------------------------------- attribute-style lookup and the legacy slice methods
+add("__getattr__", [SELF, ("attr", TStr())], [
+    Case("present", requires=lambda E: z3.Select(Dv(E.s0, E["self"])[0], E["attr"].t),
+         ensures=lambda E: z3.And(E.res.t == L(E.s0, E["self"])[1][Dv(E.s0, E["self"])[1][E["attr"].t]],
+                                  ida(E)[E.res.t] == E["attr"].t)),
+    Case("absent", requires=lambda E: z3.Not(z3.Select(Dv(E.s0, E["self"])[0], E["attr"].t)), raises="AttributeError", ensures=unchanged),
+], result=ELEM)
+
+
+def _legacy_slice(E, a, b):
+    """slice(i, j) as the legacy methods build it"""
+    return VSlice(E[a], E[b], NONE)
+
+
+def _lgs_post(E):
+    E2 = Env(dict(E.a, i=_legacy_slice(E, "i", "j")), E.s0, E.s1, res=E.res, eng=E.eng)
+    return _getslice_post(E2)
+
+
+def _lds_post(E):
+    E2 = Env(dict(E.a, index=_legacy_slice(E, "i", "j")), E.s0, E.s1, res=E.res, eng=E.eng)
+    return _delslice_post(E2)
+
+
+add("__getslice__", [SELF, ("i", TInt()), ("j", TInt())], [Case("any", ensures=_lgs_post)], result=new_dictlist)
+add("__delslice__", [SELF, ("i", TInt()), ("j", TInt())], [Case("any", ensures=_lds_post)],
+    modifies=lambda E: dl_locs(E) + [havoc_index_attr(E)])
